@@ -422,7 +422,7 @@ func c05Matrix(r *mon.R, g *groups.G, rng *gen.Rng, idx int) {
 			for side := 0; side < 2; side++ {
 				m := c05new(r, g, rng, fmt.Sprintf("matrix%d/%s-then-%s/side%d", idx, cp, mu, side))
 				m.step(cp, 1, 0, 0, rng) // slot1 = copy(slot0)
-				tgt := side               // mutate the source (0) or the copy (1) in place
+				tgt := side              // mutate the source (0) or the copy (1) in place
 				switch mu {
 				case "Add", "Sub":
 					m.step(mu, tgt, tgt, 2, rng)
